@@ -633,6 +633,39 @@ theorem spill_records_roundtrip {s : Nat} (hs : 0 < s) (runs : List (List (List 
   rw [spill_records_aux hs runs hu]
   exact storeRuns_eq runs
 
+/-- **pass_spill_bytes**: the same for the output file of a merge pass.  The merged groups are
+written as bytes, each logged with `written · entry_size`, read back at the logged byte offsets and
+cut into records: that is exactly what the record-level `pass` stores (`storeRunsLogged` with the
+`written` counters), whenever the merged records all have the record size (always without a
+combiner: `mergeGroup_uniform`). -/
+theorem pass_spill_bytes {s : Nat} (hs : 0 < s) (lt : List Nat → List Nat → Bool) (comb) (pick)
+    (gs : List (List (List (List Nat))))
+    (hu : ∀ g ∈ gs, ∀ x ∈ mergeGroup lt comb pick g, x.length = s) :
+    (readRunsBytes ((gs.map (mergeGroup lt comb pick)).map bytesOf).flatten
+        ((gs.map (mergeWritten lt comb pick)).map (· * s))).map (·.map (recordsOf s)) =
+      storeRunsLogged (gs.map (mergeWritten lt comb pick)) (gs.map (mergeGroup lt comb pick)) := by
+  have hw : gs.map (mergeWritten lt comb pick) = (gs.map (mergeGroup lt comb pick)).map List.length := by
+    rw [List.map_map]
+    exact List.map_congr_left (fun g _ => mergeWritten_eq lt comb pick g)
+  rw [hw]
+  have hl : ((gs.map (mergeGroup lt comb pick)).map List.length).map (· * s) =
+      (gs.map (mergeGroup lt comb pick)).map (fun r => r.length * s) := by
+    rw [List.map_map]; rfl
+  rw [hl]
+  exact spill_records_aux hs _ (by
+    intro r hr
+    obtain ⟨g, hg, rfl⟩ := List.mem_map.mp hr
+    exact hu g hg)
+
+/-- without a combiner the merged records are the input records, so they keep the record size -/
+theorem mergeGroup_uniform {s : Nat} {lt : List Nat → List Nat → Bool} (h : StrictWeak lt) (pick)
+    (g : List (List (List Nat))) (hg : ∀ r ∈ g, ∀ x ∈ r, x.length = s) :
+    ∀ x ∈ mergeGroup lt neverCombine pick g, x.length = s := by
+  intro x hx
+  have := (mergeGroup_perm h pick g).subset hx
+  obtain ⟨r, hr, hxr⟩ := List.mem_flatten.mp this
+  exact hg r hr x hxr
+
 /-- the byte-level block sorter + spill is the record-level block sorter on the blocks' records -/
 theorem afterBlockSorterBytes_refines {s : Nat} (hs : 0 < s) (lt : List Nat → List Nat → Bool)
     (blocks : List Block) (hw : ∀ b ∈ blocks, b.wf s) :
